@@ -5,3 +5,4 @@ import FpVerif.Properties.C03
 import FpVerif.Properties.C05
 import FpVerif.Properties.C09
 import FpVerif.Properties.C15
+import FpVerif.Properties.C02
